@@ -163,6 +163,26 @@ let parse_bodies (s : ostring) =
     | [n; fs] -> (bytes_of_hx ("x" ^ n), parse_tys fs) | _ -> failwith "bodies") (Stdlib.String.split_on_char ',' s)
 let show_ty_opt = function Some t -> "Ok " ^ hx_of_bytes (ty_string t) | None -> "Panic"
 
+(* ---- C06: rule shapes ---- *)
+let parse_shape06 (s : ostring) : shape =
+  match Stdlib.String.split_on_char ' ' s with
+  | ["SameAsFirst"; t] -> SameAsFirst (parse_ty t)
+  | ["Convert"; f; t] -> Convert (parse_ty f, parse_ty t)
+  | ["Explicit"; t] -> Explicit (parse_ty t)
+  | ["Alloca"; t; a] -> Alloca (parse_ty t, n_of_dec a)
+  | ["CmpXchg"; t] -> CmpXchg (parse_ty t)
+  | ["AtomicRMW"; t] -> AtomicRMW (parse_ty t)
+  | ["ICmp"; t] -> ICmp (parse_ty t)
+  | ["FCmp"; t] -> FCmp (parse_ty t)
+  | "Phi" :: d :: inc -> Phi (parse_ty d, List.map parse_ty inc)
+  | ["CallLike"; w; c] -> CallLike (parse_ty w, parse_ty c)
+  | ["ExtractElement"; t] -> ExtractElement (parse_ty t)
+  | ["InsertElement"; t] -> InsertElement (parse_ty t)
+  | ["ShuffleVector"; x; m] -> ShuffleVector (parse_ty x, parse_ty m)
+  | ["ExtractValue"; t; idx] -> ExtractValue (parse_ty t, List.map n_of_dec (Stdlib.String.split_on_char ',' idx))
+  | ["TokenResult"] -> TokenResult
+  | _ -> failwith ("shape " ^ s)
+
 (* ---- dispatch: kind -> inputs -> outputs ---- *)
 let eval (kind : ostring) (ins : ostring list) : ostring list =
   match kind, ins with
@@ -213,6 +233,8 @@ let eval (kind : ostring) (ins : ostring list) : ostring list =
   | "gep_inst", [e; src; fs; bodies] -> [show_ty_opt (gep_inst (parse_bodies bodies) (parse_ty e) (parse_ty src) (parse_forms fs))]
   | "gep_expr", [e; src; fs; bodies] -> [show_ty_opt (gep_expr (parse_bodies bodies) (parse_ty e) (parse_ty src) (parse_forms fs))]
   | "gep_parse", [e; src; fs; bodies] -> [show_ty_opt (gep_parse (parse_bodies bodies) (parse_ty e) (parse_ty src) (parse_forms fs))]
+  | "ir_type", [sh; bodies] -> [show_ty_opt (c06_ir (parse_bodies bodies) (parse_shape06 sh))]
+  | "asm_type", [sh; bodies] -> [show_ty_opt (c06_asm (parse_bodies bodies) (parse_shape06 sh))]
   | _ -> failwith ("unknown kind " ^ kind)
 
 let () =
